@@ -145,5 +145,13 @@ func (cache *DefaultPortalCache) Execute(ctx context.Context, name string, reade
 		return NewErrUnkownStatement(name)
 	}
 
-	return portal.statement.fn(ctx, NewDataWriter(ctx, portal.statement.columns, portal.formats, reader, writer), portal.parameters)
+	dw := NewDataWriter(ctx, portal.statement.columns, portal.formats, reader, writer)
+	err = portal.statement.fn(ctx, dw, portal.parameters)
+	if err == nil {
+		// NOTE: an aborted copy-in operation fails the command, even if the
+		// handler did not return the error it received.
+		err = copyError(dw)
+	}
+
+	return err
 }
